@@ -44,7 +44,11 @@ PROP = {
                   "logs what it reads of each channel of the state (storage paths of 0x1 / 0x2, stored resources, contract "
                   "fields) at its start, every transaction again after its last change; the driver folds these over the "
                   "history with the reference register map (Probe): a step must read what the last committed step had in "
-                  "memory at its end (about 2/3 of the histories make at least one such comparison).",
+                  "memory at its end (about 2/3 of the histories make at least one such comparison). Memory-limit sweeps "
+                  "(op memsweep, 16 per quick run: fresh-account, existing-account, two-signer, contract deployment and "
+                  "contract-state transactions plus generated ones, both engines): the transaction is re-run under a memory "
+                  "limit crossed exactly at one MeterMemory call, for each of the last 80 calls (the commit's own metering) "
+                  "and 30 spread over the run; a failed run with a register write is write-in-failed-tx.",
     "level_note": "The acceptor is a spec machine: the theorems are about traces, the tie to the Go executors is the FX "
                   "table plus the stream (assurance of the weaker half). Known finding write-via-temp-commit: "
                   "storage.used / storage.capacity / Account(payer:) flush the cache to the ledger mid-run (witness "
